@@ -2,3 +2,4 @@ import PngVerif.Model.Filter
 import PngVerif.Proofs.Filter
 import PngVerif.Props.C14
 import PngVerif.Props.C01
+import PngVerif.Props.C03
